@@ -25,8 +25,8 @@ func checkC09(p *load.Program, r *kit.Report) {
 	r.Rule("TIP-BOUND", "header(), Hash() and GetHeaders() fall back to the header files only for heights that were compared with the tip (height <= longest.Height()) and only after longest.AtHeight(height) answered nil; stale file entries are never served in place of memory", 6)
 	r.Rule("PRUNE-TRIPLE", "Prune deletes heightsMap entries of headers[:count], keeps headers[count:] and adds count to offset — the same count", 1)
 	r.Rule("SHRINK-SIBLING", "every function that re-slices Branch.headers also deletes the dropped hashes from heightsMap", 2)
-	r.Rule("FLAG-RULE", "the in-most-work-chain flag of CheckHeader/GetHeader on the in-memory arm is decided by repo.longest.AtHeight(height).Hash.Equal(&hash), never by identity of the containing branch", 2)
-	r.Rule("LOOKUP-SHAPE", "PreviousHash returns AtHeight(height-1) of the branch Find returned; header/Hash/GetHeaders read record height - file·headersPerFile of file height/headersPerFile", 4)
+	r.Rule("FLAG-RULE", "the in-most-work-chain flag of CheckHeader/GetHeader is decided by comparing the hash with the most-work chain's header at that height (repo.longest.AtHeight(height).Hash.Equal(&hash) in memory, header(height).BlockHash().Equal(&hash) on the height-map arm), never by identity of the containing branch or by membership of the long-lived height map", 4)
+	r.Rule("LOOKUP-SHAPE", "PreviousHash returns AtHeight(height-1) of the branch Find returned and answers `none` only when Find or that AtHeight has nothing; header/Hash/GetHeaders read record height - file·headersPerFile of file height/headersPerFile", 5)
 	r.Rule("LOCKSET", "every exported Repository method that touches branches/longest/heights/invalidHashes/newHeadersChannels does so only after taking the repository mutex", 10)
 
 	c := newLabelCtx(p, r, "HEIGHT-LABEL")
@@ -143,6 +143,18 @@ func flagFromEqual(p *load.Program, f *ssa.Function, v ssa.Value, at ssa.Instruc
 				return true
 			}
 		}
+		// header(ctx, height).BlockHash().Equal(&hash): the most-work chain's header at that height,
+		// from memory or from the header files
+		for i := 0; i < 2; i++ {
+			bh, _ := kit.Strip(c.Call.Args[i]).(*ssa.Call)
+			if bh == nil || kit.CallID(bh) != load.WirePkg+".BlockHeader.BlockHash" {
+				continue
+			}
+			hc := callOf(bh.Call.Args[0], 0)
+			if hc != nil && kit.CallID(hc) == H+".Repository.header" {
+				return true
+			}
+		}
 		return false
 	}
 	var rec func(v ssa.Value, at ssa.Instruction, depth int) (bool, string)
@@ -164,6 +176,12 @@ func flagFromEqual(p *load.Program, f *ssa.Function, v ssa.Value, at ssa.Instruc
 			}
 			return false, "reports `in most-work chain` without comparing the hash with the most-work chain's header at that height"
 		}
+		idx := 0
+		if e, ok := v.(*ssa.Extract); ok {
+			if c, ok := e.Tuple.(*ssa.Call); ok {
+				v, idx = c, e.Index
+			}
+		}
 		switch x := v.(type) {
 		case *ssa.Call:
 			if isGoodEqual(x) {
@@ -172,7 +190,10 @@ func flagFromEqual(p *load.Program, f *ssa.Function, v ssa.Value, at ssa.Instruc
 			callee := kit.StaticCallee(x)
 			if callee != nil && callee.Blocks != nil && callee.Pkg != nil && callee.Pkg.Pkg.Path() == H {
 				for _, ret := range kit.Returns(callee) {
-					if ok, why := rec(kit.RetOperand(ret, 0), ret, depth+1); !ok {
+					if kit.ReturnErrClass(ret) == kit.ErrNonNil {
+						continue
+					}
+					if ok, why := rec(kit.RetOperand(ret, idx), ret, depth+1); !ok {
 						return false, kit.ShortID(kit.FuncID(callee)) + ": " + why
 					}
 				}
@@ -220,14 +241,20 @@ func checkFlagRule(p *load.Program, r *kit.Report) {
 			}
 			return true, b.Op == token.NEQ
 		})
-		bad := ""
-		n := 0
+		bad, badMap := "", ""
+		n, nMap := 0, 0
 		for _, ret := range kit.Returns(f) {
 			if kit.ReturnErrClass(ret) == kit.ErrNonNil {
 				continue
 			}
 			if d, _ := kit.DominatedByEdges(f, ret, edgesOf(found, true), nil, p.Pos); !d {
-				continue // the long-lived map arm (assumed main chain by the property's own note)
+				// the long-lived map arm: the map keeps every hash seen (trimmed headers included), so
+				// membership alone does not put a header on the most-work chain
+				nMap++
+				if ok, why := flagFromEqual(p, f, kit.RetOperand(ret, flagIdx), ret, longestF); !ok {
+					badMap = why
+				}
+				continue
 			}
 			n++
 			if ok, why := flagFromEqual(p, f, kit.RetOperand(ret, flagIdx), ret, longestF); !ok {
@@ -239,6 +266,10 @@ func checkFlagRule(p *load.Program, r *kit.Report) {
 			bad = "no successful return on the in-memory arm"
 		}
 		r.Check(bad == "", "FLAG-RULE", name+"/flag", posOf(p, find), "flag = repo.longest.AtHeight(height).Hash.Equal(&hash)", bad)
+		if nMap == 0 {
+			badMap = "no successful return on the height-map arm"
+		}
+		r.Check(badMap == "", "FLAG-RULE", name+"/map-flag", posOf(p, find), "on the height-map arm the flag is true only behind header(height).BlockHash().Equal(&hash)", badMap)
 	}
 }
 
@@ -275,6 +306,39 @@ func checkPreviousHash(p *load.Program, r *kit.Report) {
 		}
 	}
 	r.Check(bad == "", "LOOKUP-SHAPE", "PreviousHash", posOf(p, f.Blocks[0].Instrs[0]), "AtHeight(height-1) of the found branch", bad)
+	// "not found" is answered only when the hash is unknown or AtHeight(height-1) has no header:
+	// AtHeight already walks into the parent branches, so the predecessor of a fork's first header
+	// (held by the parent) and of every retained header must be answered
+	if len(finds) == 1 && len(ats) == 1 {
+		find, at := finds[0].(*ssa.Call), ats[0].(*ssa.Call)
+		notFound := kit.FindGuards(f, func(c ssa.Value) (bool, bool) {
+			b, ok := c.(*ssa.BinOp)
+			if !ok {
+				return false, false
+			}
+			// height == -1 (or branch == nil) on the Find result
+			if (b.Op == token.EQL || b.Op == token.NEQ) && (callOf(b.X, 0) == find || callOf(b.X, 1) == find) {
+				if k, isC := kit.ConstInt(b.Y); (isC && k == -1) || kit.IsNilConst(b.Y) {
+					return true, b.Op == token.EQL
+				}
+			}
+			// at == nil
+			if (b.Op == token.EQL || b.Op == token.NEQ) && kit.IsNilConst(b.Y) && kit.Strip(b.X) == ssa.Value(at) {
+				return true, b.Op == token.EQL
+			}
+			return false, false
+		})
+		bad2 := ""
+		for _, ret := range kit.Returns(f) {
+			if !kit.IsNilConst(kit.RetOperand(ret, 0)) {
+				continue
+			}
+			if d, path := kit.DominatedByEdges(f, ret, edgesOf(notFound, true), nil, p.Pos); !d {
+				bad2 = "PreviousHash answers `none` at " + posOf(p, ret) + " although the hash was found and AtHeight(height-1) was not asked or returned a header (" + path + "): the walk back from the tip stops there (block synchronisation treats it as a reorg and requests nothing)"
+			}
+		}
+		r.Check(bad2 == "", "LOOKUP-SHAPE", "PreviousHash/none-only-when-missing", posOf(p, f.Blocks[0].Instrs[0]), "nil is returned only behind Find → not found or AtHeight(height-1) == nil", bad2)
+	}
 }
 
 func checkStorageReaders(p *load.Program, r *kit.Report) {
